@@ -433,3 +433,76 @@ CODE = Harness(
 )
 
 HARNESSES = [H, CODE]
+
+
+# ------------------------------------------------------------------------------ A-again
+TIMEOUTS = [20, None, 2.5]
+
+
+def again_params(tier):
+    return [P("rv", 0, 2), P("timeout", 0, 2), P("runs", 0, 1)]
+
+
+@guard
+def again_fn(a, tier):
+    """Several applications started one after the other from ONE configuration object, with every documented kind of start timeout."""
+    rv_kind, tk, runs = pick(a["rv"], 3), pick(a["timeout"], 3), 2 + pick(a["runs"], 2)
+    rv = [None, 3, "boom"][rv_kind]
+    log = []
+    boom = BodyErr("run failed")
+
+    class Kid(Component):
+        def __init__(self, label="?"):
+            self.label = label
+
+        async def start(self):
+            label = self.label
+            add_teardown_callback(lambda: log.append(("td", label)))
+
+    class App(CLIApplicationComponent):
+        async def start(self):
+            add_teardown_callback(lambda: log.append(("td", "app")))
+
+        async def run(self):
+            log.append(("run",))
+            if rv == "boom":
+                raise boom
+            return rv
+
+    config = {"components": {"first": {"type": Kid, "label": "first"}, "second": {"type": Kid, "label": "second"}}}
+    results = []
+    for _ in range(runs):
+        log.clear()
+        try:
+            run_application(App, config, backend="symsched", logging=None, start_timeout=TIMEOUTS[tk], backend_options={"max_steps": 5000})
+            outcome = ("return",)
+        except SystemExit as e:
+            outcome = ("exit", e.code)
+        except BaseException as e:  # noqa
+            outcome = ("raise", e)
+        results.append((outcome, sorted(x[1] for x in log if x[0] == "td"), log.count(("run",))))
+    summary = {"run()": ["returns None", "returns 3", "raises"][rv_kind], "start_timeout": TIMEOUTS[tk], "applications_started_from_the_same_config_object": runs}
+    exp_outcome = [("return",), ("exit", 3), ("raise", boom)][rv_kind]
+    for n_, (outcome, tds, ran) in enumerate(results):
+        same = outcome[0] == exp_outcome[0] and (outcome[1:] == exp_outcome[1:] if outcome[0] != "raise" else outcome[1] is boom)
+        if not same:
+            return FAIL(f"again:outcome-of-application-{n_ + 1}-of-{runs}:timeout={TIMEOUTS[tk]}:got={outcome[:2] if outcome[0] != 'raise' else type(outcome[1]).__name__}",
+                        f"expected {exp_outcome[:2]}; results={results!r}", summary)
+        if tds != ["app", "first", "second"] or ran != 1:
+            return FAIL(f"again:teardown-callbacks-of-application-{n_ + 1}-of-{runs}:timeout={TIMEOUTS[tk]}", f"ran {tds}, run() called {ran} time(s)", summary)
+    return OK(summary, True)
+
+
+AGAIN = Harness(
+    prop="C15",
+    name="A-again",
+    fn=again_fn,
+    params=again_params,
+    cube=lambda tier: 0,
+    title="several applications started from one configuration object; start_timeout an int, a float and None",
+    bound_text=lambda tier: "CLI application with two children declared in the configuration; run() returns None / 3 / raises; start_timeout in {20, None, 2.5}; 2-3 runs with the same dict",
+    oracle="every run has the documented outcome and runs the teardown callbacks of the root and of both configured children exactly once",
+    outside="-",
+    stubs=STUBS_COMMON,
+)
+HARNESSES.append(AGAIN)
